@@ -85,16 +85,19 @@ class ValueScalar(Value):
         return ValueScalar(self.v * v)
     
     def __truediv__(self, rhs):
-        v = int(rhs)
-        return ValueScalar(self.v // v)
+        return self.__floordiv__(rhs)
     
     def __floordiv__(self, rhs):
+        # Division is towards zero, as the solver computes it
         v = int(rhs)
-        return ValueScalar(self.v // v)
+        q = abs(self.v) // abs(v)
+        return ValueScalar(-q if (self.v < 0) != (v < 0) else q)
     
     def __mod__(self, rhs):
+        # The remainder takes the sign of the dividend
         v = int(rhs)
-        return ValueScalar(self.v % v)
+        r = abs(self.v) % abs(v)
+        return ValueScalar(-r if self.v < 0 else r)
     
     def __or__(self, rhs):
         v = int(rhs)
